@@ -309,7 +309,13 @@ def run_once(plan: dict, fire_step: int | None, trace_steps: bool = True, signal
                     sim.step_limit = True
                     sim.log("ra_end", outcome="step_limit", code=None, exc=None)
                 except BaseException as e:  # noqa: BLE001
-                    sim.log("ra_end", outcome="raise", code=None, exc=_desc(e))
+                    from ..trio_rt import deadlock_of
+
+                    if deadlock_of(e):
+                        sim.deadlock = True
+                        sim.log("ra_end", outcome="deadlock", code=None, exc=None)
+                    else:
+                        sim.log("ra_end", outcome="raise", code=None, exc=_desc(e))
                 if sim.livelock is not None:
                     LIVELOCKS.append({"step": sim.livelock, "exc": None})
                     sim.crashed = f"livelock at step {sim.livelock}"
